@@ -80,6 +80,15 @@ func (h *H) scenario(i int) {
 			if h.prof == "bigfile" {
 				pad = (2 + h.r.Intn(3)) << 20
 			}
+			if h.prof == "bigfile" && h.wouldRotate(entrySize(p, 1, 0, h.nextU+1, pad)) && h.r.Chance(70) {
+				// snapshot indexes exactly at the end of an entry file
+				for n := 0; n < h.n && h.err == nil; n++ {
+					if h.mir[n].up && h.r.Chance(80) {
+						h.actFlushBegin(n, 1)
+						h.actFlushEnd(n, 1)
+					}
+				}
+			}
 			h.nextU++
 			if h.prof == "applyfail" && h.r.Chance(35) {
 				h.actFailNext(h.anyUp())
@@ -401,6 +410,30 @@ var scripted = []script{
 		h.actElect()
 		h.w(int(h.rgp().MasterPtID), 2, 1, 0)
 	}, 5},
+	// the snapshot index is the LAST entry of an entry file when the ClearEntryLog entry is applied:
+	// the file that holds it must stay (the replay starts at the snapshot index, inclusive)
+	{"trunc-boundary", 1, func(h *H) {
+		h.actLead(0)
+		for i := 0; i < 14 && h.err == nil && !h.wouldRotate(entrySize(0, 1, i%4, h.nextU+1, big)); i++ {
+			h.w(0, i%4, 1, big)
+		}
+		for n := 0; n < h.n; n++ {
+			h.flush(n, 1) // every node's snapshot index: the last entry of the first file
+		}
+		h.w(0, 0, 1, big) // starts the second file
+		h.w(0, 1, 1, big)
+		h.actTrunc(false)
+		h.w(0, 2, 1, 0) // applied, not flushed
+		h.w(0, 3, 1, 0)
+		h.actKill(1)
+		h.actRestart(1)
+		h.actKill(0)
+		h.actMeta(0, false)
+		h.actElect()
+		h.pickLeader()
+		h.actRestart(0)
+		h.actMeta(0, true)
+	}, 0},
 	// two replica groups on the same three nodes: a node kill hits a member of each
 	{"two-groups", 1, func(h *H) { h.twoGroups(false) }, 3},
 	// truncation by size on the leader while a member is down
